@@ -40,6 +40,27 @@ int main(void)
       snprintf(s, sizeof(s), "%s%s", heads[i], tails[j]);
       bad |= try_buf(s);
     }
+  /* complete documents with hostile elements (semantic import code of topology-xml.c) */
+  {
+#define M "<object type=\"Machine\" os_index=\"0\" cpuset=\"0x3\" complete_cpuset=\"0x3\" allowed_cpuset=\"0x3\" nodeset=\"0x3\" complete_nodeset=\"0x3\" allowed_nodeset=\"0x3\" gp_index=\"1\">"
+#define N0 "<object type=\"NUMANode\" os_index=\"0\" cpuset=\"0x1\" complete_cpuset=\"0x1\" nodeset=\"0x1\" complete_nodeset=\"0x1\" gp_index=\"2\" local_memory=\"1048576\"/>"
+#define N1 "<object type=\"NUMANode\" os_index=\"1\" cpuset=\"0x2\" complete_cpuset=\"0x2\" nodeset=\"0x2\" complete_nodeset=\"0x2\" gp_index=\"7\" local_memory=\"1048576\"/>"
+#define P0 "<object type=\"PU\" os_index=\"0\" cpuset=\"0x1\" complete_cpuset=\"0x1\" nodeset=\"0x1\" complete_nodeset=\"0x1\" gp_index=\"4\"/>"
+#define P1 "<object type=\"PU\" os_index=\"1\" cpuset=\"0x2\" complete_cpuset=\"0x2\" nodeset=\"0x2\" complete_nodeset=\"0x2\" gp_index=\"5\"/>"
+#define PK0 "<object type=\"Package\" os_index=\"0\" cpuset=\"0x1\" complete_cpuset=\"0x1\" nodeset=\"0x1\" complete_nodeset=\"0x1\" gp_index=\"3\">"
+#define PK1 "<object type=\"Package\" os_index=\"1\" cpuset=\"0x2\" complete_cpuset=\"0x2\" nodeset=\"0x2\" complete_nodeset=\"0x2\" gp_index=\"6\">"
+#define TREE "<topology version=\"2.0\">" M PK0 N0 P0 "</object>" PK1 N1 P1 "</object></object>"
+#define DTAIL "<indexes length=\"3\">0 1</indexes><u64values length=\"11\">10 20 20 10</u64values></distances2></topology>"
+    static const char *docs[] = {
+      TREE "<distances2 type=\"NUMANode\" nbobjs=\"2\" kind=\"5\" indexing=\"os\" name=\"x\">" DTAIL,
+      TREE "<distances2 type=\"NUMANode\" nbobjs=\"2\" kind=\"5\" indexing=\"os\">" DTAIL,                 /* no name, latency kind, v2 */
+      TREE "<distances2 type=\"NUMANode\" nbobjs=\"2\" kind=\"9\" indexing=\"os\">" DTAIL,
+      TREE "<distances2 nbobjs=\"2\" kind=\"5\">" DTAIL,
+      TREE "<distances2 type=\"NUMANode\" nbobjs=\"0\" kind=\"5\" indexing=\"os\">" DTAIL,
+      TREE "<distances2 type=\"NUMANode\" nbobjs=\"3\" kind=\"5\" indexing=\"os\">" DTAIL,
+    };
+    for (i = 0; i < sizeof(docs) / sizeof(*docs) && !bad; i++) bad |= try_buf(docs[i]);
+  }
   if (!bad) printf("xmlbuf: no buffer crashed the loader\n");
   return bad;
 }
